@@ -17,6 +17,7 @@ import (
 	"flag"
 	"fmt"
 	"io"
+	"iter"
 	"log/slog"
 	"os"
 	"path/filepath"
@@ -29,6 +30,7 @@ import (
 	"time"
 
 	"reduction.dev/reduction/dkv"
+	"reduction.dev/reduction/dkv/kv"
 	"reduction.dev/reduction/dkv/recovery"
 	"reduction.dev/reduction/dkv/sst"
 	"reduction.dev/reduction/dkv/storage"
@@ -51,7 +53,7 @@ type c09Inst struct {
 	lo, hi   int
 	alive    bool
 	mode     string
-	snaps    []*sst.LevelList
+	snaps    []*c09Snap
 	known    map[string]bool
 	events   []string
 	ckptIDs  []uint64
@@ -62,6 +64,35 @@ type c09Inst struct {
 	op        *operator.Operator
 	deployReq *workerpb.DeployOperatorRequest
 	srcDocs   []string // documents the deploy reads (relative paths)
+}
+
+// c09DrainScan reads a held scan to its end. Stopping it early instead would leave the tables pinned for ever:
+// mergesort.Merge pulls every source through iter.Pull and never stops those coroutines, so an abandoned scan leaks
+// one parked coroutine per merged table, each holding its *sst.Table (observed on the real code; the released
+// instance's tables were then never collected).
+func c09DrainScan(sn *c09Snap) {
+	if sn == nil || sn.next == nil {
+		return
+	}
+	c09Guard(func() string {
+		for {
+			if _, ok := sn.next(); !ok {
+				break
+			}
+		}
+		sn.stop()
+		return ""
+	})
+}
+
+// c09Snap is something that pins a level list of an instance: the list itself (a reader that took
+// currentSSTables), or a real DB.ScanPrefix iterator that was started and is held half-way
+type c09Snap struct {
+	uris []string // what it pins (relative paths), as of the call
+	ll   *sst.LevelList
+	next func() (kv.Entry, bool)
+	stop func()
+	err  *error
 }
 
 type c09Handle struct {
@@ -575,6 +606,11 @@ func runC09(c lib.Case) []string {
 	verifhook.Set(w.hook)
 	defer func() {
 		runtime.KeepAlive(w.grave)
+		for _, x := range w.insts {
+			for _, sn := range x.snaps {
+				c09DrainScan(sn) // best effort: frees the coroutines of scans still held at the end of the case
+			}
+		}
 		w.mu.Lock()
 		if w.askResume != nil {
 			close(w.askResume)
@@ -986,7 +1022,38 @@ func runC09(c lib.Case) []string {
 				out = append(out, "not-alive")
 				continue
 			}
-			x.snaps = append([]*sst.LevelList{x.db.VerifLevels()}, x.snaps...)
+			sn := &c09Snap{}
+			lost := false
+			for _, l := range x.db.VerifLevels().VerifLayout() {
+				for _, ti := range l {
+					sn.uris = append(sn.uris, w.canon(ti.URI))
+					if !w.store.exists(w.canon(ti.URI)) {
+						lost = true
+					}
+				}
+			}
+			if lost && len(f) >= 3 {
+				// reading a level list that already lost a file (D25/D34) panics in the code under test
+				out = append(out, "files-missing")
+				continue
+			}
+			if len(f) >= 3 && f[2] == "scan" {
+				// a scan over everything, advanced by one entry and then held: what it pins is whatever the real
+				// iterators hold (the model says: the tables of the level list at the call)
+				sn.err = new(error)
+				res := c09Guard(func() string {
+					sn.next, sn.stop = iter.Pull(x.db.ScanPrefix(nil, sn.err))
+					sn.next()
+					return ""
+				})
+				if res != "" {
+					out = append(out, res)
+					continue
+				}
+			} else {
+				sn.ll = x.db.VerifLevels()
+			}
+			x.snaps = append([]*c09Snap{sn}, x.snaps...)
 			out = append(out, "ok")
 		case "unsnap": // unsnap <i> <k>
 			x := inst(f[1])
@@ -995,9 +1062,36 @@ func runC09(c lib.Case) []string {
 				continue
 			}
 			k, _ := strconv.Atoi(f[2])
+			res := "ok"
 			if k >= 0 && k < len(x.snaps) {
+				lost := false
+				for _, u := range x.snaps[k].uris {
+					if !w.store.exists(u) {
+						lost = true
+					}
+				}
+				if sn := x.snaps[k]; sn.next != nil && lost {
+					res = "files-missing" // another instance deleted a pinned file (D25/D34): the scan is abandoned
+				} else if sn.next != nil {
+					// the held scan is read to its end: every table it pinned must still be readable
+					r := c09Guard(func() string {
+						for {
+							if _, ok := sn.next(); !ok {
+								break
+							}
+						}
+						sn.stop()
+						if *sn.err != nil {
+							return "scan-err " + strings.ReplaceAll((*sn.err).Error(), " ", "_")
+						}
+						return ""
+					})
+					if r != "" {
+						res = r
+					}
+				}
 				// a fresh slice: nothing may keep pointing at the dropped level list
-				var ns []*sst.LevelList
+				var ns []*c09Snap
 				for j, s := range x.snaps {
 					if j != k {
 						ns = append(ns, s)
@@ -1005,7 +1099,7 @@ func runC09(c lib.Case) []string {
 				}
 				x.snaps = ns
 			}
-			out = append(out, "ok")
+			out = append(out, res)
 		case "crash", "release":
 			x := inst(f[1])
 			if x == nil || !x.alive {
@@ -1021,6 +1115,9 @@ func runC09(c lib.Case) []string {
 					_ = s
 				}
 			} else {
+				for _, sn := range x.snaps {
+					c09DrainScan(sn)
+				}
 				x.snaps = nil
 				x.op = nil
 			}
@@ -1394,7 +1491,11 @@ func (g *c09Gen) churn(steps int, gen int) {
 			g.retain(i)
 		case v < 80:
 			x.snaps++
-			g.emit("snap %d", i)
+			if g.r.Bool() {
+				g.emit("snap %d scan", i)
+			} else {
+				g.emit("snap %d", i)
+			}
 		case v < 86:
 			if x.snaps > 0 {
 				k := g.r.Intn(x.snaps)
@@ -1695,6 +1796,10 @@ func c09FixedAll() []lib.Case {
 		{Header: "M C09 mem=120 l0=1", Tags: []string{"regress-D46"}, Ops: []string{
 			"open 0-8 gen=0 nbrs=- from=none", "write 0 12 1 0-7", "ckpt 0 1", "write 0 12 2 0-7", "asksplit 0 new", "ckpt 0 2",
 			"write 0 12 3 0-7", "write 0 12 4 0-7", "askresume", "asksplit 0 dead", "jobdrop 1", "retain 0 2", "askresume", "gc", "missing"}},
+		// a scan iterator held across compactions, a retention update and collections pins its tables
+		{Header: "M C09 mem=120 l0=1", Tags: []string{"held-scan"}, Ops: []string{
+			"open 0-8 gen=0 nbrs=- from=none", "write 0 12 1 0-7", "snap 0 scan", "write 0 12 2 0-7", "write 0 12 3 0-7", "gc", "files",
+			"ckpt 0 1", "write 0 12 4 0-7", "gc", "files", "unsnap 0 0", "gc", "files", "missing"}},
 		// plain life of one instance: compaction, checkpoints, retention, snapshot
 		{Header: "M C09 mem=120 l0=1", Tags: []string{"single"}, Ops: []string{
 			"open 0-8 gen=0 nbrs=- from=none", "write 0 12 1 0-7", "snap 0", "ckpt 0 1", "write 0 12 2 0-7", "gc", "files", "ckpt 0 2",
